@@ -1,3 +1,4 @@
 From Coq Require Import Extraction ExtrOcamlBasic.
 From Nitro Require Import Base.Bytes Log.LogModel Log.LogSpec.
-Extraction "log_model.ml" exec_prog init_world run spec_prog init_sworld spec_run stream_kind gate_open harness_fmt named_ops min_severity.
+Extraction "log_model.ml" exec_prog init_world run spec_prog init_sworld spec_run stream_kind gate_open harness_fmt named_ops min_severity
+  filt holds log_record delivery.
